@@ -93,7 +93,7 @@ func runPrefix(c *Ctx) {
 	// scripted: hint-less, ::/0, two prefixes in one message then renewing only the second
 	for k, pl := range pools[:3] {
 		p2 := pdHint{absentPrefix: true, class: "length-0"}
-		runPrefixHistory(c, 9000+2*k, pl, 7, []pfxScript{
+		runPrefixHistory(c, 9000+2*k, pl, 10, []pfxScript{
 			{client: 0, ias: []pdIA{{iaid: [4]byte{0, 0, 0, 1}}}},
 			{client: 0, ias: []pdIA{{iaid: [4]byte{0, 0, 0, 1}, hints: []pdHint{p2}}}},
 			{client: 0, ias: []pdIA{{iaid: [4]byte{0, 0, 0, 1}}}},
@@ -101,6 +101,9 @@ func runPrefix(c *Ctx) {
 			{client: 1, ias: []pdIA{{iaid: [4]byte{0, 0, 0, 2}, hints: []pdHint{{class: "second-held"}}}}},
 			{client: 1, ias: []pdIA{{iaid: [4]byte{0, 0, 0, 2}, hints: []pdHint{{class: "second-held"}}}}},
 			{client: 1, ias: []pdIA{{iaid: [4]byte{0, 0, 0, 1}, hints: []pdHint{p2}}}},
+			{client: 0, ias: []pdIA{{iaid: [4]byte{0, 0, 0, 9}, hints: []pdHint{p2, p2, p2}}}},
+			{client: 0, ias: []pdIA{{iaid: [4]byte{0, 0, 0, 9}, hints: []pdHint{p2, p2, p2}}}},
+			{client: 0, ias: []pdIA{{iaid: [4]byte{0, 0, 0, 9}, hints: []pdHint{p2, p2, p2}}}},
 		})
 	}
 	runPrefixGate(c)
@@ -488,10 +491,31 @@ func runPrefixHistory(c *Ctx, hi int, pl pfxPool, nmsgs int, script []pfxScript)
 				}
 			}
 			if onlyKnown {
+				// each empty hint takes one held prefix (the last one all that is left): new prefixes
+				// are only due when there are more empty hints than held prefixes not asked for by name
+				empties, named := 0, map[pfxKey]bool{}
+				for _, hp := range reqHints {
+					if hp.isNil {
+						empties++
+					} else {
+						named[hp.key] = true
+					}
+				}
+				if len(reqHints) == 0 {
+					empties = 1
+				}
+				allowed := empties - (len(heldBefore) - len(named))
+				if allowed < 0 {
+					allowed = 0
+				}
+				fresh := []string{}
 				for key := range got {
 					if !heldBefore[key] && !newThisMsg[key] {
-						c.vio("C09", "retransmit-consumes-block", fmt.Sprintf("client %d holds %v and sent an IA_PD asking only for what it holds (%d hints); it was given the additional new prefix %v", cl, keysOf(heldBefore), len(reqHints), key), rec())
+						fresh = append(fresh, fmt.Sprintf("%s/%d", key.ip, key.ones))
 					}
+				}
+				if len(fresh) > allowed {
+					c.vio("C09", "retransmit-consumes-block", fmt.Sprintf("client %d holds %v and sent an IA_PD asking only for what it holds or for nothing in particular (%d hints, %d of them empty); it was given %d new prefixes %v where at most %d are due", cl, keysOf(heldBefore), len(reqHints), empties, len(fresh), fresh, allowed), rec())
 				}
 			}
 			for key := range got {
